@@ -105,6 +105,11 @@ def k_registry(P, prior, client, codes, gen_names=False):
             ee.__dict__["open"] = saved[0]
         ee.json, ee.os = saved[1], saved[2]
     after = [(k, list(v)) for k, v in store["content"].items()]
+    if gen_names:
+        hsc = import_module(P.__name__ + ".core.http_status_codes")
+        want = [hsc.get_exception_class_name(c) for c in union]  # the name the generated endpoints import and raise
+        ok = len(names) == len(want) and all(len(a) == len(b) and bool(a == b) for a, b in zip(names, want))
+        return (after, list(union), len(names) if ok else -1, store["writes"])
     return (after, list(union), len(names), store["writes"])
 
 
@@ -171,7 +176,7 @@ class RegistryStep(Obligation):
             if not bool(a < b):
                 return False, "returned union %r is not strictly increasing" % (union,)
         if self.gen_names and n_names != len(union):
-            return False, "%d alias classes generated for a union of %d codes" % (n_names, len(union))
+            return False, "alias classes generated for the union %r do not match the class names the endpoints raise (count %d)" % (union, n_names)
         if writes != 1:
             return False, "registry written %d times" % writes
         return True, ""
@@ -188,7 +193,7 @@ def mk_step(mc, mk, gen_names=False):
 
 
 # ------------------------------------------------------------------ K2
-def k_gate(P, core_depth, client_depth, core_inside_client):
+def k_gate(P, core_depth, client_depth, core_inside_client, prefix_sibling=False, no_codes=False):
     """Drives the real ExceptionsEmitter.emit (visitor and registry steps stubbed) and reports whether the registry was consulted."""
     ee = import_module(P.__name__ + ".emitters.exceptions_emitter")
     root = tempfile.mkdtemp(prefix="c11_")
@@ -197,6 +202,8 @@ def k_gate(P, core_depth, client_depth, core_inside_client):
         client_dir = os.path.join(root, *pkg)
         if core_inside_client:
             core_dir = os.path.join(client_dir, "core")
+        elif prefix_sibling:
+            core_dir = client_dir + "_core"  # a sibling whose path has the client's path as a textual prefix
         else:
             core_dir = os.path.join(root, *(["shared%d" % i for i in range(core_depth - 1)] + ["core"]))
         os.makedirs(client_dir, exist_ok=True)
@@ -206,7 +213,7 @@ def k_gate(P, core_depth, client_depth, core_inside_client):
 
         class V:
             def visit(self, spec, ctx):
-                return ("", [], [404])
+                return ("", [], [] if no_codes else [404])
 
         em.visitor = V()
         em._update_registry = lambda path, client, codes: used.append(client) or [404]
@@ -222,16 +229,18 @@ class Gate(Obligation):
 
     def __init__(self):
         self.name = "shared_core_gate"
-        self.bounds = {"core_depth_below_root": "1..4", "client_package_depth": "1..3", "core_inside_client_package": "yes / no"}
+        self.bounds = {"core_depth_below_root": "1..4", "client_package_depth": "1..3", "core_inside_client_package": "yes / no",
+                       "core_is_prefix_named_sibling": "yes / no", "client_declares_no_error_codes": "yes / no"}
 
     def make_inputs(self, e):
-        return {"core_depth": 1 + e.choose(4, "cd"), "client_depth": 1 + e.choose(3, "pd"), "inside": bool(e.choose(2, "inside"))}
+        return {"core_depth": 1 + e.choose(4, "cd"), "client_depth": 1 + e.choose(3, "pd"), "inside": bool(e.choose(2, "inside")),
+                "prefix_sibling": bool(e.choose(2, "sib")), "no_codes": bool(e.choose(2, "nocodes"))}
 
     def run_sym(self, inp):
-        return call_catching(k_gate, _I(), inp["core_depth"], inp["client_depth"], inp["inside"])
+        return call_catching(k_gate, _I(), inp["core_depth"], inp["client_depth"], inp["inside"], inp["prefix_sibling"], inp["no_codes"])
 
     def run_real(self, inp):
-        return call_catching(k_gate, _R(), inp["core_depth"], inp["client_depth"], inp["inside"])
+        return call_catching(k_gate, _R(), inp["core_depth"], inp["client_depth"], inp["inside"], inp["prefix_sibling"], inp["no_codes"])
 
     def prop(self, inp, r):
         if isinstance(r, Raised):
